@@ -20,7 +20,7 @@ open Wp
 structure BgStyle where
   image : Option (Rat × Rat)     -- `background-image`: a raster image of `pw × ph` pixels
   colored : Bool                 -- `get_color(style, 'background_color').alpha != 0`
-  hidden : Bool                  -- `style['visibility'] == 'hidden'`
+  hidden : Bool                  -- `style['visibility'] != 'visible'` (hidden or collapse: repair af29a5d)
   res : Rat                      -- `style['image_resolution']`
   size : BgSize
   clip : BoxArea
